@@ -39,6 +39,42 @@ pub const S5: &[&str] = &[
     "{", "#", "@", "?", "\\", "é", "€", "\u{a0}", "datalines", "cards4", ";;;;", "data", "eq", "\0", "correspondingly",
 ];
 
+/// One representative per Unicode property a character test could be written with instead of
+/// the intended one: numeric but not an ASCII digit (Nd, No, Nl), alphabetic outside the BMP
+/// (4 bytes and a name character), 4 bytes and no name character, case-fold look-alikes, blanks
+/// and line breaks that are not ' ' / LF, marks, format characters, NUL.
+pub const EXOTIC_CHARS: &[&str] = &[
+    "\u{ff11}", "\u{663}", "\u{b2}", "\u{bd}", "\u{2167}", "\u{2460}", "\u{20bb7}", "\u{1d4b3}", "\u{1f600}", "\u{e9}", "\u{20ac}", "\u{a0}",
+    "\u{3000}", "\u{2003}", "\u{301}", "\u{200b}", "\u{2028}", "\u{85}", "\r", "\u{b}", "\u{c}", "\0", "\u{feff}", "\u{131}", "\u{17f}", "\u{df}",
+    "\u{212a}", "\u{fb01}", "\u{2019}", "\u{ac}", "\u{436}", "\u{4e2d}",
+];
+
+/// Every (open-code or macro) atom directly followed / preceded by every exotic character, with a
+/// few continuations: the complete product, so that "this symbol before that character class" is
+/// never a matter of which atoms happen to share an alphabet.
+pub fn exotic_pair_inputs() -> Vec<String> {
+    let mut hosts: Vec<&str> = S5.to_vec();
+    hosts.extend([
+        "%m", "&v", "&v.", "%let q=", "%put ", "%let ", "$", "$a", "x=", "1.", "1e", "0f", "'a'", "\"a\"", "%eval(1", "%m(", "%m(a", "%str(", "%if a ", "%then", "%do i=1 %to",
+        "%macro ", "%macro m(", "/*c*/", "*c;", "%*c;", "a.", "a b", "datalines;\n", "%l:",
+    ]);
+    let tails = ["", "a", ".", "(", ";", "8.", "1", "=1;", " a", ")", "\n"];
+    let mut v = Vec::new();
+    for h in &hosts {
+        for x in EXOTIC_CHARS {
+            for t in tails {
+                v.push(format!("{h}{x}{t}"));
+                v.push(format!("{x}{h}{t}"));
+                v.push(format!("{h}{x}{x}{t}"));
+                v.push(format!("a {h}{x}{t}"));
+            }
+        }
+    }
+    v.sort();
+    v.dedup();
+    v
+}
+
 /// S5 without the five least connected atoms (thorough tier at N = 5)
 pub const S5_CORE: &[&str] = &[
     " ", "\n", "a", "x", "e", "d", "b", "t", "n", "f", "_", "1", "0", "9", ".", "'", "\"", ";",
@@ -61,7 +97,7 @@ pub const DL_FAMILY: &[&str] = &[
 ];
 
 pub const S8: &[&str] = &[
-    "a", "é", "€", "😀", "\u{a0}", "\u{feff}", "\n", " ", "'", "\"", ";", "/*", "*/", "*", "%*",
+    "a", "é", "€", "😀", "\u{20bb7}", "\u{a0}", "\u{feff}", "\n", " ", "'", "\"", ";", "/*", "*/", "*", "%*",
     "%m", "(", ")", "&v", "%let ", "$", ".", "1", "datalines;",
 ];
 
